@@ -41,8 +41,9 @@ def nodeInfo? (x : Sexp) : Option NodeInfo :=
 
 def fnInfo? (x : Sexp) : Option FnInfo :=
   match x with
-  | .list [i, pa, l, r, b, nl] => do
-    pure { id := ← i.nat?, parent := ← pa.nat?, isLambda := ← l.bool?, read := ← nats? r, bound := ← nats? b, nonlocals := ← nats? nl }
+  | .list [i, pa, l, r, b, nl, gl] => do
+    pure { id := ← i.nat?, parent := ← pa.nat?, isLambda := ← l.bool?, read := ← nats? r, bound := ← nats? b, nonlocals := ← nats? nl,
+           globals := ← nats? gl }
   | _ => none
 
 /-- `(graph fnId (nodes) (edges) entry (exits))  (infos)  (fns)` -/
